@@ -19,6 +19,7 @@ inductive SubKind where
   | once (cond : Nat) (fired : Bool)
   | wv (cond : Nat) (active : Option Nat)
   | ctx (st : CtxSt)
+  | log (active str : Bool)     -- `LogUpdates`: is the log level active (= is the inner `OnUpdate` registered); stringer given
 
 structure VSub where
   live : Bool
@@ -27,6 +28,7 @@ structure VSub where
 structure St where
   value : Nat := 0
   subs : List VSub := []
+  order : List Nat := []       -- the callback list: indices of `subs` in registration order of their inner `OnUpdate`
   toggles : Nat := 0
   derive : Option (Nat × Nat × Bool) := none    -- k, value of the derived source, still attached
 
@@ -75,6 +77,9 @@ def deliverOne (i : Nat) (s : VSub) (n : Nat × Nat) : VSub × List String :=
     | .ctx st =>
       let r := ctxStep ctxBody st n
       ({ s with kind := .ctx r.1 }, r.2.map (ctxTok i))
+    | .log active str =>
+      -- while the level is active the inner `OnUpdate` (no initial-zero trigger) logs the new value of every note
+      (s, if active then [s!"l{i}=" ++ (if str then "s" else "") ++ toString n.2] else [])
 
 def deliverAll : Nat → List VSub → Nat × Nat → List VSub × List String
   | _, [], _ => ([], [])
@@ -83,6 +88,17 @@ def deliverAll : Nat → List VSub → Nat × Nat → List VSub × List String
     let b := deliverAll (i + 1) r n
     (a.1 :: b.1, a.2 ++ b.2)
 
+/-- All callbacks of the callback list, in list order. -/
+def deliverOrd (n : Nat × Nat) : List Nat → List VSub → List VSub × List String
+  | [], subs => (subs, [])
+  | i :: r, subs =>
+    match subs[i]? with
+    | none => deliverOrd n r subs
+    | some s =>
+      let a := deliverOne i s n
+      let b := deliverOrd n r (subs.set i a.1)
+      (b.1, a.2 ++ b.2)
+
 def answer (ret : String) (toks : List String) : String :=
   ret ++ " |" ++ String.join (toks.map (" " ++ ·))
 
@@ -90,7 +106,7 @@ def answer (ret : String) (toks : List String) : String :=
 def write (st : St) (f : Nat → Nat) (ret : String) : St × String :=
   match (varObj Nat 0 0).upd st.value f with
   | .change v' n =>
-    let r := deliverAll 0 st.subs n
+    let r := deliverOrd n st.order st.subs
     ({ st with value := v', subs := r.1 }, answer ret r.2)
   | .quiet _ => (st, answer ret [])
 
@@ -101,8 +117,8 @@ def subscribe (st : St) (kind : SubKind) (flag : Bool) : St × String :=
   match (varObj Nat 0 0).ini st.value flag with
   | some n =>
     let r := deliverOne i s n
-    ({ st with subs := st.subs ++ [r.1] }, answer "ok" r.2)
-  | none => ({ st with subs := st.subs ++ [s] }, answer "ok" [])
+    ({ st with subs := st.subs ++ [r.1], order := st.order ++ [i] }, answer "ok" r.2)
+  | none => ({ st with subs := st.subs ++ [s], order := st.order ++ [i] }, answer "ok" [])
 
 def unsubscribe (st : St) (i : Nat) : St × String :=
   match st.subs[i]? with
@@ -115,7 +131,8 @@ def unsubscribe (st : St) (i : Nat) : St × String :=
         | .once c f => (.once c f, [])
         | .wv c active => (.wv c none, (wvUnsub active).map (wvTok i))
         | .ctx cs => (.ctx { cs with opens := [] }, (ctxUnsub (N := Nat × Nat) cs).map (ctxTok i))
-      ({ st with subs := st.subs.set i { live := false, kind := kind' } }, answer "ok" toks)
+        | .log _ str => (.log false str, [])
+      ({ st with subs := st.subs.set i { live := false, kind := kind' }, order := st.order.filter (· != i) }, answer "ok" toks)
 
 def showSub (s : VSub) : String :=
   if !s.live then "x"
@@ -123,6 +140,7 @@ def showSub (s : VSub) : String :=
     | .once _ fired => if fired then "o1" else "o0"
     | .wv _ active => match active with | some a => s!"w{a}" | none => "w-"
     | .ctx cs => s!"c{cs.opens.length}"
+    | .log active _ => if active then "l1" else "l0"
 
 def stepLine (st : St) (toks : List String) : St × String :=
   match toks with
@@ -170,6 +188,32 @@ def stepLine (st : St) (toks : List String) : St × String :=
     | none => (st, "bad-op")
   | ["nonempty"] => subscribe st (.wv 3 none) true
   | ["ctx", f] => subscribe st (.ctx {}) (f == "1")
+  | ["log", a, str] =>
+    -- `LogUpdates` on a receiver whose level is active (`a = 1`) or not: active = the inner `OnUpdate` is registered now
+    if a == "1" then subscribe st (.log true (str == "1")) false
+    else ({ st with subs := st.subs ++ [{ live := true, kind := .log false (str == "1") }] }, answer "ok" [])
+  | ["level", i, b] => match i.toNat? with
+    | some i =>
+      match st.subs[i]? with
+      | some s =>
+        match s.kind with
+        | .log active str =>
+          if !s.live then (st, answer "ok" [])
+          else if b == "1" && !active then
+            -- the level is activated: the receiver runs the setup, i.e. `OnUpdate` (initial note iff the value is non-zero)
+            let s' : VSub := { s with kind := .log true str }
+            match (varObj Nat 0 0).ini st.value false with
+            | some n =>
+              let r := deliverOne i s' n
+              ({ st with subs := st.subs.set i r.1, order := st.order.filter (· != i) ++ [i] }, answer "ok" r.2)
+            | none => ({ st with subs := st.subs.set i s', order := st.order.filter (· != i) ++ [i] }, answer "ok" [])
+          else if b != "1" && active then
+            -- deactivated: the shutdown function (the inner unsubscribe) removes the callback from the list
+            ({ st with subs := st.subs.set i { s with kind := .log false str }, order := st.order.filter (· != i) }, answer "ok" [])
+          else (st, answer "ok" [])
+        | _ => (st, "bad-op")
+      | none => (st, "bad-op")
+    | none => (st, "bad-op")
   | ["unsub", i] => match i.toNat? with
     | some i => unsubscribe st i
     | none => (st, "bad-op")
